@@ -7,7 +7,6 @@ CHECKS['C03'] = dict(
     note='Trusted: CPython ast and re._parser, transcription of ply.yacc.parse_grammar, ply LALR construction used as a library on extracted (lhs, rhs) tuples, embedded ES5.1 reference grammar and lexical reference patterns. Analyses /repo/src text only.')
 
 NA = {
- 'C09': 'every clause is arithmetic over running delta accumulators along an unbounded fragment stream; no structural necessary condition in reach of static analysis beyond what a unit test asserts (DESIGN.md section 5)',
  'C17': 'compares two code paths of ply over build products (lextab/yacctab modules) that do not exist in the working tree; the repository contributes only argument plumbing (DESIGN.md section 5)',
 }
 
@@ -102,3 +101,9 @@ CHECKS['C19'] = dict(
     text='Decides literal agreement ES5 <-> extracted Python value for the enumerated spellings (all JSON escapes: exhaustive; numbers: sampled forms) and the last-binding-wins / order-preserving grouping. The rest of the value pipeline (AssignmentList plumbing, operator folding) is NOT decided.',
     ref='DESIGN.md sections 3 (C19), 9.2',
     note='Narrow claim. Trusted: json / ast.literal_eval of the standard library as oracles for a literal, the evaluator.')
+
+CHECKS['C09'] = dict(
+    technique='static analysis by partial evaluation: sourcemap.write with its bookkeeping classes (Names, Bookkeeper with its attribute hooks, Book) and normalize_mappings are evaluated from their syntax trees on every stream of up to 3 (thorough 4) abstract fragments over 17 fragment shapes x {normalisation off, on}; the relative mappings are decoded by an independent 40-line Source Map V3 decoder and compared clause by clause with what the fragments carried; encode_sourcemap is folded and decoded back',
+    text='Bounded: exhaustive over the abstract fragment streams up to the bound (14 478 quick, ~250 000 thorough), not beyond. Decides, on those, the mapping of every explicitly positioned fragment (source, line, column, original name; by linear interpolation when normalised), index ranges, monotone generated columns and one mapping line per text line. Streams longer than the bound and other concrete positions are NOT decided; the VLQ layer is C10.',
+    ref='DESIGN.md sections 9.2, 13.4',
+    note='Trusted: the evaluator (engine/absint.py), the embedded decoder. No repository code is imported or run; the functions are interpreted from their syntax trees.')
